@@ -265,6 +265,76 @@ def run_refparams(rep):
     rep.merge(part.result())
 
 
+# ---- the swap inside whole documents: contexts that demand a compile-time value, guards, updates --------------------------------
+CTX_DECL = ("int i = 1; const int ci = 2; bool bb; const bool OFF = false; const bool ON = true; int fk() { return ci; } int fv() { return i; }\n"
+            "bool bk() { return OFF; } bool bv() { return bb; }\n")
+CTX_INTS = ["i", "ci", "2", "0", "fk()", "fv()"]
+CTX_BOOLS = ["bb", "OFF", "ON", "true", "false", "i > 0", "ci > 0", "bk()", "bv()"]
+CTX_INT_OPS = ["+", "*", "&", "|", "^", "<?", ">?", "==", "!="]
+CTX_BOOL_OPS = ["&&", "||", "==", "!=", "and", "or"]
+
+
+def ctx_docs(e, kind):
+    """documents with the expression e (int or bool valued) in compile-time contexts and in run-time contexts"""
+    import xmlgen as X
+    t = lambda params=None, decl="", guard=None, assign=None: X.template(       # noqa: E731
+        "T", params=params, decl=decl, locations=[X.location("id0", "L0"), X.location("id1", "L1")], init="id0",
+        transitions=[X.transition("id0", "id1", guard=guard, assign=assign)])
+    ty = "int" if kind == "int" else "bool"
+    size = "(%s) * 0 + 2" % e if kind == "int" else "(%s) ? 2 : 3" % e
+    sysl = "P = T(); system P;"
+    return {
+        "const-initialiser": X.nta(CTX_DECL + "const %s q = %s;" % (ty, e), [t()], sysl),
+        "variable-initialiser": X.nta(CTX_DECL, [t(decl="%s q = %s;" % (ty, e))], sysl),
+        "array-size": X.nta(CTX_DECL + "int arr[%s];" % size, [t()], sysl),
+        "range-bound": X.nta(CTX_DECL, [t(decl="int[0, %s] r;" % size)], sysl),
+        "template-argument": X.nta(CTX_DECL, [t(params="const %s p" % ty)], "P = T(%s); system P;" % e),
+        "guard": X.nta(CTX_DECL, [t(guard=("(%s) >= 0" % e) if kind == "int" else e)], sysl),
+        "update": X.nta(CTX_DECL + "%s tgt;" % ty, [t(assign="tgt = %s" % e)], sysl),
+    }
+
+
+def shard_contexts(arg):
+    kind, a = arg
+    import xmlgen as X
+    part = engine.Part()
+    w = engine.worker("fast")
+    pool_, ops = (CTX_INTS, CTX_INT_OPS) if kind == "int" else (CTX_BOOLS, CTX_BOOL_OPS)
+    pairs = []
+    if kind in ("int", "bool"):
+        for b in pool_:
+            for op in ops:
+                pairs.append(("%s %s %s" % (a, op, b), "%s %s %s" % (b, op, a), "binary:" + op, kind))
+    else:           # inline-if: a is the condition
+        for x in CTX_INTS:
+            for y in CTX_INTS:
+                pairs.append(("%s ? %s : %s" % (a, x, y), "!(%s) ? %s : %s" % (a, y, x), "inline-if", "int"))
+    docs, meta = [], []
+    for e1, e2, what, k in pairs:
+        d1, d2 = ctx_docs(e1, k), ctx_docs(e2, k)
+        for cid in d1:
+            docs += [d1[cid], d2[cid]]
+            meta.append((e1, e2, what, cid))
+    res = X.run_docs(w, docs, want=["noinv"], batch=50)
+    for n, (e1, e2, what, cid) in enumerate(meta):
+        r1, r2 = res[2 * n], res[2 * n + 1]
+        part.count()
+        rp = {"op": "xml", "buf": docs[2 * n], "swapped": docs[2 * n + 1]}
+        if engine.check_crash(part, PID, r1, e1, rp) or engine.check_crash(part, PID, r2, e2, rp):
+            continue
+        if e1 != e2:
+            part.nontrivial_case("context:%s:%s|%s" % (cid, e1, e2))
+        v1 = (X.accepted(r1), sorted(X.msgs(r1)))
+        v2 = (X.accepted(r2), sorted(X.msgs(r2)))
+        if v1 != v2:
+            part.outcome("context:verdict-differs")
+            part.violation("context-asymmetric:%s:%s" % (what, cid), "in the context %s `%s` gives %s but `%s` gives %s" %
+                           (cid, e1, "accepted" if v1[0] else v1[1][:2], e2, "accepted" if v2[0] else v2[1][:2]), rp)
+        else:
+            part.outcome("context:same-verdict/" + ("accepted" if v1[0] else "rejected"))
+    return part.result()
+
+
 def main():
     P = pool()
     rep = engine.Report(PID, "exploration",
@@ -281,6 +351,8 @@ def main():
     for res in engine.pmap(shard_lvalue_inlineif, LV_POOL):
         rep.merge(res)
     run_refparams(rep)
+    for res in engine.pmap(shard_contexts, [("int", a) for a in CTX_INTS] + [("bool", a) for a in CTX_BOOLS] + [("cond", a) for a in CTX_BOOLS]):
+        rep.merge(res)
     rep.extra["operand_pool"] = P
     rep.assumptions = ["type kinds are compared after stripping const/range/label wrappers",
                        "the reference-parameter table treats two types as equivalent iff structurally equal "
